@@ -216,6 +216,32 @@ pub fn edits(seed: &[u8], pairs: bool, mut f: impl FnMut(&[u8])) -> u64 {
 }
 
 // ------------------------------------------------------------------------------------------
+// family 5: every value of every 16-bit window
+
+/// Calls `f` with `seed` in which the 16-bit window at offset i (big endian) is set to every one
+/// of the 65,536 values, for every i in `lo..hi` (i + 1 < seed.len()). The single-edit family
+/// reaches all values of every octet; this reaches all values of every 16-bit field (type codes,
+/// classes, counts, lengths, flag words, key tags, parameter keys, option codes ...).
+pub fn windows16(seed: &[u8], lo: usize, hi: usize, mut f: impl FnMut(&[u8])) -> u64 {
+    let mut buf = seed.to_vec();
+    let mut count = 0u64;
+    let hi = hi.min(seed.len().saturating_sub(1));
+    for i in lo..hi {
+        let (a, b) = (seed[i], seed[i + 1]);
+        for v in 0..=65535u16 {
+            let be = v.to_be_bytes();
+            buf[i] = be[0];
+            buf[i + 1] = be[1];
+            f(&buf);
+            count += 1;
+        }
+        buf[i] = a;
+        buf[i + 1] = b;
+    }
+    count
+}
+
+// ------------------------------------------------------------------------------------------
 // family 4: growth families
 
 pub const GROWTH_FAMILIES: [&str; 22] = [
